@@ -203,6 +203,9 @@ structure St where
   inv : Bool := false
   /-- watchers libuv itself keeps registered (async wakeup): contribution to `loop->nfds` -/
   internal : Nat := 0
+  /-- discipline switch: allow a second handle to be *initialised* on a descriptor that already has a
+  live handle (off in the theorems; on only to replay the witness of `Props.C14.second_handle_*`) -/
+  multi : Bool := false
   aborted : Bool := false
   /-- newest first -/
   log : List Ev := []
@@ -341,6 +344,9 @@ def fdIdle (s : St) (fd : Nat) : Bool :=
 
 def valid4 (m : Mask) : Bool := m != Mask.none && !m.e && !m.h
 
+/-- some handle that is not closed lives on `fd` -/
+def fdTaken (s : St) (fd : Nat) : Bool := !s.multi && s.ws.any fun w => w.fd == fd && !w.closing
+
 def liveId (s : St) (id : Nat) (poll : Bool) : Bool :=
   id < s.ws.length && (getW s id).poll == poll && !(getW s id).closing
 
@@ -358,6 +364,7 @@ def doOp (s : St) : Op → St
     else emit s .refused
   | .peer _ _ => s
   | .pinit fd =>
+    if fdTaken s fd then emit s .refused else
     match pollInit s fd with
     | (s, _, some id) => emit s (.newId id)
     | (s, r, .none) => if s.aborted then s else emit s (.ret r)
@@ -368,7 +375,9 @@ def doOp (s : St) : Op → St
     else emit s .refused
   | .pstop id => if liveId s id true then emit (pollStop s id) (.ret 0) else emit s .refused
   | .pclose id => if liveId s id true then emit (pollClose s id) (.ret 0) else emit s .refused
-  | .ioinit fd => emit { s with ws := s.ws ++ [{ fd := fd, poll := false }] } (.newId s.ws.length)
+  | .ioinit fd =>
+    if fdTaken s fd then emit s .refused else
+    emit { s with ws := s.ws ++ [{ fd := fd, poll := false }] } (.newId s.ws.length)
   | .iostart id m =>
     let fd := (getW s id).fd
     if liveId s id false && valid4 m && (s.k.ofdAt fd).isSome
